@@ -9,7 +9,7 @@ NOT_APPLICABLE = {}
 CHECKS = {
     "C01": {
         "level": "exploration",
-        "technique": "property-based testing (Hypothesis), round-trip oracle, per-class enumeration",
+        "technique": "property-based testing (Hypothesis), round-trip oracle, per-class enumeration plus a deterministic sweep of length-prefix and block-size boundaries",
         "text": "Every entity class (all 1629 in thorough; in quick a shape set-cover + all headers + all 36 tag-bearing classes + a seeded sample) gets its own seeded Hypothesis run over boundary-biased canonical instances (special code points, named DST zones, all-defaults nested structs, 32768-byte legacy strings that must be refused); encode, append a drawn tail, decode; the decoded value must equal the original and exactly the encoder's bytes must be consumed. Sampling of an infinite value space, complete enumeration of classes in thorough.",
         "design_ref": "DESIGN.md 2/C01",
         "note": "Round trip is kio against kio; instances are built from generated wire trees by kv.refcodec.to_entity. No absence claim.",
@@ -100,7 +100,7 @@ CHECKS = {
     },
     "C10": {
         "level": "exploration",
-        "technique": "property-based structure-aware mutation of reference encodings + random bytes; coverage-guided fuzzing (atheris/libFuzzer) in thorough; counted cost bounds",
+        "technique": "property-based structure-aware mutation of reference encodings + random bytes; coverage-guided fuzzing (atheris/libFuzzer) in thorough; counted cost bounds plus a CPU-time scaling comparison of valid inputs at two sizes",
         "text": "Per class, random byte strings and reference encodings damaged by 1-4 offset-map-guided edits (length prefixes, varint continuation bits, tag numbers/sizes, markers; hostile lengths) are decoded under a Python-call and read-call budget linear in the input and an address-space cap; any exception outside SerialError/ValueError/OverflowError, any budget overrun, over-consumption, or a returned entity that cannot be re-encoded idempotently is a violation. Thorough adds 16 atheris processes with the same oracle inside the target.",
         "design_ref": "DESIGN.md 2/C10",
         "note": "Cost is counted (sys.setprofile call events, read calls), never timed; memory blow-ups surface as MemoryError through RLIMIT_AS=3 GiB.",
@@ -121,7 +121,7 @@ CHECKS = {
     },
     "C19": {
         "level": "exploration",
-        "technique": "stateful (rule-based) property testing for histories, exhaustive fault-position injection, and a deterministic line-granularity thread scheduler with drawn and exhaustively swept preemptions",
+        "technique": "stateful (rule-based) property testing for histories, exhaustive fault-position injection, a deterministic line-granularity thread scheduler with drawn and exhaustively swept preemptions, and enumeration of creation orders in fresh processes",
         "text": "Three generated dimensions against one oracle (result == pristine result == reference encoding): Hypothesis RuleBasedStateMachine histories (pools always contain two versions of a same-named class) over create/clear/encode/decode/truncated/invalid/faulty-stream operations with an invariant after every step; every write/read position of sampled (class, value) pairs injected with an I/O error followed by a clean call on the same closure; and 2-3 threads run under a harness-owned scheduler (sys.settrace in src/kio, token passing) over drawn schedules of <=3 preemptions plus an exhaustive single-preemption sweep over every step of fixed programs.",
         "design_ref": "DESIGN.md 2/C19",
         "note": "Interleavings at source-line granularity (C calls atomic), threads <= 3, preemptions <= 3 (1 in the exhaustive sweeps); histories and (class, value) pairs are sampled.",
